@@ -59,6 +59,10 @@ Exec.coercions.setdefault("Args", {})["None"] = lambda ex, v: Val(Args, z3.Const
 Exec.coercions.setdefault("UV", {})["Str"] = lambda ex, v: Val(UV, uv_str(v.t))
 py_hash = z3.Function("py_hash", sort_of(H), z3.IntSort())
 Exec.hash_handlers["H"] = lambda ex, v, node, st: Val(TInt, py_hash(v.t))
+# hash(query object) is its __hash__: hash(self._hash)
+Exec.hash_handlers["Obj_SimpleQuery"] = lambda ex, v, node, st: Val(TInt, py_hash(v.t["_hash"].t))
+Exec.hash_handlers["Obj_CompoundQuery"] = lambda ex, v, node, st: Val(TInt, py_hash(v.t["_hash"].t))
+Exec.hash_handlers["Q"] = lambda ex, v, node, st: Val(TInt, py_hash(q_hashv(v.t)))  # the other operand, seen abstractly
 Exec.getattr_dyn_handlers["Pt"] = lambda ex, p, name, node, st: Val(UV, uv_attr(p.t, ex.coerce(name, TStr, node).t))
 
 
